@@ -450,8 +450,68 @@ impl Space for Specials {
     }
 }
 
+/// A loaded workbook gets one more annotation kind (on the annotated sheet or on another one) and is saved again:
+/// what was loaded and what was added must both be there, each on its own cell (ids, part numbers and relationship
+/// ids of loaded and new items must not collide).
+struct AddAfterLoad {
+    cases: Vec<(usize, usize, usize, usize)>, // (loaded kind, added kind, layout, target: 0 = same sheet, 1 = another sheet)
+}
+impl Space for AddAfterLoad {
+    fn len(&self) -> u64 {
+        self.cases.len() as u64
+    }
+    fn describe(&self, i: u64) -> Value {
+        let (k1, k2, l, t) = self.cases[i as usize];
+        json!({"kind":"add-after-load","loaded": format!("{}x2", KINDS[k1].0), "added": format!("{}x2", KINDS[k2].0), "layout": LAYOUTS[l], "added_to": (if t == 0 { "same sheet" } else { "another sheet" }), "light": i % 2 == 1})
+    }
+    fn tags(&self, i: u64) -> Vec<String> {
+        let (k1, k2, l, t) = self.cases[i as usize];
+        vec![format!("k:{}", KINDS[k1].0), format!("added:{}", KINDS[k2].0), format!("k:{}+added:{}", KINDS[k1].0, KINDS[k2].0), format!("layout:{}", LAYOUTS[l]), format!("added-to:{}", ["same", "other"][t]), "add-after-load".into()]
+    }
+    fn run(&self, i: u64, sink: &mut Sink) {
+        let (k1, k2, l, t) = self.cases[i as usize];
+        let tags = self.tags(i);
+        let case = self.describe(i);
+        let tg: Vec<&str> = tags.iter().map(|s| s.as_str()).collect();
+        let light = i % 2 == 1;
+        let r = std::panic::catch_unwind(|| -> Result<Spreadsheet, String> {
+            let b = build(&[(k1, 2)], l, 0);
+            let (_, mut b2) = roundtrip(&b, light)?;
+            let idx = if l == 2 { 2 } else { 0 };
+            let target = if t == 0 || b2.get_sheet_count() == 1 { idx } else { 1 };
+            add_kind(&mut b2, target, k2, 2);
+            Ok(b2)
+        });
+        match r {
+            Err(e) => sink.violations.push(Violation::new("build", &format!("panic:{}", panic_class(&panic_msg(&e))), &tg, case, panic_msg(&e))),
+            Ok(Err(e)) => sink.violations.push(Violation::new("roundtrip-succeeds", &format!("failed:{}", panic_class(&e)), &tg, case, format!("first generation: {}", e))),
+            Ok(Ok(b2)) => check(&b2, light, &tags, &case, sink),
+        }
+    }
+}
+
 pub fn space(tier: Tier, id: &str) -> Option<Box<dyn Space>> {
     match id {
+        "add-after-load" => {
+            let mut cases = vec![];
+            for k1 in 0..KINDS.len() {
+                for k2 in 0..KINDS.len() {
+                    for l in [0usize, 1, 2] {
+                        for t in [0usize, 1] {
+                            // the same kind twice on the same sheet would put two items on the same cell / under the same name
+                            if (k1 == k2 && (t == 0 || l == 0)) || (t == 1 && l == 0) {
+                                continue;
+                            }
+                            if tier == Tier::Quick && l == 2 && t == 1 {
+                                continue;
+                            }
+                            cases.push((k1, k2, l, t));
+                        }
+                    }
+                }
+            }
+            Some(Box::new(AddAfterLoad { cases }))
+        }
         "kinds" => Some(Box::new(Kinds { cases: kind_cases(tier) })),
         "specials" => {
             let mut cases = vec![];
@@ -474,7 +534,7 @@ fn replay(tier: Tier, case: &Value) -> Vec<Violation> {
 }
 
 fn run(ctx: &Ctx) -> i32 {
-    let ids = ["kinds", "specials"];
+    let ids = ["kinds", "specials", "add-after-load"];
     let spaces = ids.iter().map(|id| (*id, space(ctx.tier, id).unwrap())).collect();
     run_e1(
         ctx,
@@ -482,7 +542,7 @@ fn run(ctx: &Ctx) -> i32 {
             spaces,
             cfg: PoolCfg { chunk: 16, case_timeout: std::time::Duration::from_secs(120), ..Default::default() },
             level: "exploration",
-            rule: "annotation kinds x counts {1,2,12} x sheet layouts {single, first of 3, last of 3}: every kind alone, every pair of kinds at every count combination, all kinds at once; sheet operations before save (remove first/last/active, rename, move active tab) for every kind and all at once; every annotation text channel x special string. Oracle: annotation dump (sheet list/order/names/visibility/active tab, merges, defined names, hyperlinks by cell, comments by cell, validations, conditional formats, filter, tab colour, panes/selection, page setup, header/footer, protection) before save == after reload, keyed by cell so that a swap or move is a key mismatch. distinct_nontrivial = distinct reloaded annotation dumps".into(),
+            rule: "annotation kinds x counts {1,2,12} x sheet layouts {single, first of 3, last of 3}: every kind alone, every pair of kinds at every count combination, all kinds at once; sheet operations before save (remove first/last/active, rename, move active tab) for every kind and all at once; every annotation text channel x special string. Oracle: annotation dump (sheet list/order/names/visibility/active tab, merges, defined names, hyperlinks by cell, comments by cell, validations, conditional formats, filter, tab colour, panes/selection, page setup, header/footer, protection) before save == after reload, keyed by cell so that a swap or move is a key mismatch. distinct_nontrivial = distinct reloaded annotation dumps; (add-after-load) every ordered pair (loaded kind, added kind): a workbook with 2 items of the first kind is saved and reloaded, 2 items of the second kind are added to the same or to another sheet, and the result is saved and reloaded again".into(),
             alphabets: json!({"kinds": KINDS.iter().map(|k| k.0).collect::<Vec<_>>(), "counts": COUNTS, "layouts": LAYOUTS, "sheet_ops": SHEET_OPS, "channels": CHANNELS.len(), "specials": SPECIALS.len(), "kind_cases": kind_cases(ctx.tier).len()}),
             bounds: json!({"pairs_layouts": if ctx.tier == Tier::Thorough {"all 3 layouts"} else {"first-of-3 only"}, "max_items_per_kind": if ctx.tier == Tier::Thorough {40} else {12}, "kind_triples": ctx.tier == Tier::Thorough}),
             exhaustive: true,
